@@ -98,6 +98,16 @@ static void puts_or_dash (const char *k, const char *v)
   if (v == NULL) printf ("~"); else puthex ((const unsigned char *) v, (int) strlen (v));
 }
 
+static void dump_getters (DBusMessage *m)
+{
+  const char *v[7]; int i;
+  v[0] = dbus_message_get_path (m); v[1] = dbus_message_get_interface (m); v[2] = dbus_message_get_member (m);
+  v[3] = dbus_message_get_error_name (m); v[4] = dbus_message_get_destination (m); v[5] = dbus_message_get_sender (m);
+  v[6] = dbus_message_get_container_instance (m);
+  printf ("rs%u", dbus_message_get_reply_serial (m));
+  for (i = 0; i < 7; i++) { putchar (','); if (v[i] == NULL) putchar ('~'); else puthex ((const unsigned char *) v[i], (int) strlen (v[i])); }
+}
+
 static void dump_message (DBusMessage *m)
 {
   DBusMessageIter it;
@@ -252,7 +262,9 @@ static void do_build (void)
   dbus_message_iter_init_append (m, &it);
   if (!append_tokens (&it, NULL)) { printf ("refused-append at token %d\n", g_pos); dbus_message_unref (m); return; }
   dbus_message_set_serial (m, (dbus_uint32_t) serial);
-  printf ("bytes="); put_marshalled (m);
+  /* read the header through the getters BEFORE anything serialises the message (stale caches must show) */
+  printf ("getters="); dump_getters (m);
+  printf (" bytes="); put_marshalled (m);
   printf (" dump="); dump_message (m);
   /* copy: equal message with serial 0 */
   copy = dbus_message_copy (m);
@@ -294,7 +306,7 @@ static void do_edit (const char *hex)
     {
       if (k++) putchar ('|');
       if (!apply_setter (m, op)) printf ("refused");
-      else put_marshalled (m);
+      else { dump_getters (m); putchar ('@'); put_marshalled (m); }
     }
   if (k == 0) put_marshalled (m);
   printf ("\n");
